@@ -542,6 +542,69 @@ def two_live_indexes(ctx, mon, rng):
     mon.shadows.clear()
 
 
+def copied_index_history(ctx, mon, rng):
+    """An index and an independent copy of it (copy.deepcopy / pickle round trip), each with its OWN later
+    removals: each is an index of the same vertex set whose history is the removals applied to IT, so each
+    answer is judged against that object's own shadow.  (copy.copy is not used: a shallow copy of the
+    unchanged class shares its cell lists by construction.)  That an index can be copied at all is not part of
+    the statement - a copy operation that raises is counted, not judged."""
+    import copy
+    import pickle
+    from plotink import spatial_grid
+    _cls, verts = gen_vertices(rng)
+    verts = verts[:40]
+    xs = [p[0] for v in verts for p in v]
+    ys = [p[1] for v in verts for p in v]
+    if len(verts) < 2 or max(xs) - min(xs) + max(ys) - min(ys) == 0:
+        return
+    bins, reverse = rng.choice((1, 2, 3, 4, 7)), rng.random() < 0.5
+    n = len(verts)
+    try:
+        src = spatial_grid.Index(verts, bins, reverse)
+        removed_src = []
+        for path in rng.sample(range(n), rng.randint(0, n // 3)):
+            src.remove_path(path)
+            removed_src.append(path)
+    except Exception:
+        mon.shadows.clear()
+        return          # reported by the single-index workload
+    how = rng.choice(("copy.deepcopy", "pickle round trip"))
+    try:
+        dup = copy.deepcopy(src) if how == "copy.deepcopy" else pickle.loads(pickle.dumps(src, rng.choice((2, pickle.HIGHEST_PROTOCOL))))
+    except Exception as exc:
+        ctx.count("observed:%s of an index raises %s (copyability is outside the statement)" % (how, type(exc).__name__))
+        mon.shadows.clear()
+        return
+    sh = Shadow(verts, reverse, bins)
+    sh.live = set(mon.shadows[id(src)].live) if id(src) in mon.shadows else set(range(n)) - set(removed_src)
+    mon.shadows[id(dup)] = sh
+    both = [(src, removed_src), (dup, list(removed_src))]
+    for k in range(rng.randint(4, 10)):
+        index, removed = both[k % 2]
+        other, _ = both[1 - k % 2]
+        live = [i for i in range(n) if i not in removed]
+        try:
+            if live and rng.random() < 0.7:
+                # remove a path on THIS object, then ask the OTHER one right at that path's start
+                path = rng.choice(live)
+                index.remove_path(path)
+                removed.append(path)
+                index, removed = both[1 - k % 2]
+                q = list(verts[path][0])
+            else:
+                _label, q = gen_query(rng, verts, index)
+            ctx.case(["history: an index and its copy with separate removals (%s)" % how,
+                      "history: an index and its copy with separate removals", "bins=%d" % bins],
+                     (tuple(map(tuple, (tuple(map(tuple, v)) for v in verts))), bins, reverse, tuple(removed), tuple(q), how, k % 2),
+                     nontrivial=n - len(removed) >= 2)
+            index.nearest(q)
+        except Exception as exc:
+            ctx.violation("exception in nearest", {"fn": "nearest", "vertices": verts, "bins": bins, "reverse": reverse,
+                                                   "removed": list(removed), "copy": how, "exception": repr(exc)})
+            break
+    mon.shadows.clear()
+
+
 def packed_cell_history(ctx, mon, rng):
     """Many short or closed paths whose two ends share one grid cell with a high number (fine
     grids have cells numbered above 256), removed and queried in turn."""
@@ -604,6 +667,9 @@ def run(ctx):
     for _ in range(ctx.budget(600, 8_000)):
         two_live_indexes(ctx, mon, rng)
     ctx.need("history: two live indexes used alternately", 2000)
+    for _ in range(ctx.budget(500, 6_000)):
+        copied_index_history(ctx, mon, rng)
+    ctx.need("history: an index and its copy with separate removals", 1000)
     ctx.need("shape: vertices given as tuples / lists and tuples mixed", 200)
     for _ in range(ctx.budget(3_000, 40_000)):
         border_history(ctx, mon, rng)
